@@ -142,7 +142,7 @@ pub fn run(ctx: &Arc<Ctx>) {
         Err(e) => ctx.machinery_error(format!("missing corpus/sm3.json: {}", e)),
     }
     let lmax = ctx.tier.pick(1100usize, 12000);
-    ctx.set_rule("every length 0..=Lmax x 5 content classes; every single-bit-set message of 55/56/63/64/192 bytes; k*64+{-9,-8,-1,0,1} for k=1..=40; 2^k+{-1,0,1} bytes for k=13..=22 (thorough 26) and lengths whose bit length has distinct non-zero bytes, up to one message of 0x20406081 bytes (bit length 0x0102030408); messages passed as slices at byte offsets 1..7 of an aligned buffer; every value of the last byte at 8 lengths; all call sequences of length <=3 over 6 messages (purity). A case is distinct by (kind, length, content/bit). Oracle: independent streaming SM3.");
+    ctx.set_rule("every length 0..=Lmax x 5 content classes; every single-bit-set message of 55/56/63/64/192 bytes; k*64+{-9,-8,-1,0,1} for k=1..=40; 2^k+{-1,0,1} bytes for k=13..=22 (thorough 26) and lengths whose bit length has distinct non-zero bytes, up to one message of 0x20406081 bytes (bit length 0x0102030408) and, thorough, one of 0x120406081 bytes (more than 2^32 bytes, bit length 0x0902030408); messages passed as slices at byte offsets 1..7 of an aligned buffer; every value of the last byte at 8 lengths; all call sequences of length <=3 over 6 messages (purity). A case is distinct by (kind, length, content/bit). Oracle: independent streaming SM3.");
     ctx.note_bound(format!("Lmax={}", lmax));
     let mut cases: Vec<Case> = Vec::new();
     for len in 0..=lmax {
@@ -210,6 +210,14 @@ pub fn run(ctx: &Arc<Ctx>) {
     let c = Case::Class { class: "mod251".into(), len: big };
     eval(ctx, &c);
     ctx.cov("bitlen_ge_2^32_bytes", json!(big));
+    // thorough: a message of more than 2^32 bytes (bit length 0x09_02_03_04_08: the byte count itself no longer fits in
+    // 32 bits, the bit length has bit 35 set); about 4.5 GiB for the message and as much again for the library's padded copy
+    if ctx.tier == Tier::Thorough {
+        let huge = 0x0902_0304_08usize / 8;
+        let c = Case::Class { class: "mod251".into(), len: huge };
+        eval(ctx, &c);
+        ctx.cov("bytelen_ge_2^32_bytes", json!(huge));
+    }
     ctx.sample(serde_json::to_value(&c).unwrap());
 
     // E1: purity — every call's digest is that of its message alone, whatever preceded it
